@@ -146,6 +146,17 @@ func c10Gen(t *rapid.T) MetricCase {
 			top.Grouping = &gen.Grouping{Without: true, Labels: []string{d.GroupLabels[l2]}}
 		}
 	}
+	if top != m && rapid.IntRange(0, 2).Draw(t, "second-level") == 0 {
+		// One more aggregation on top: the identity of a series after an inner clause that may
+		// keep no label at all ("by ()", no clause) and an outer one that names labels again.
+		if rapid.Bool().Draw(t, "inner-keeps-nothing") {
+			top.Grouping = rapid.SampledFrom([]*gen.Grouping{nil, {Labels: []string{}}}).Draw(t, "inner-empty")
+		}
+		outer := &gen.Metric{Kind: "vecagg", Op: rapid.SampledFrom([]string{"sum", "max", "count"}).Draw(t, "aggop2"), Inner: top}
+		outer.Grouping = datagen.GenGrouping(t, d, "g2")
+		outer.GroupingFirst = rapid.Bool().Draw(t, "grouping-first2")
+		top = outer
+	}
 	c.Recs = d.Recs
 	c.M = *top
 	c.Text = gen.PrintMetric(top, datagen.RapidLayout{T: t})
